@@ -171,6 +171,29 @@ FIRST = {
     "C19-14": ("missed", "every job used the same function table. Added an external function known only through one job's own imports file, after a csvpath naming an unknown function."),
     "C20-13": ("caught", ""),
     "C20-14": ("missed", "a chain was never interrupted by ANOTHER instance running the same group. Added."),
+    # ---- round 8 (first encounter measured with the checks as committed before the round: /verif 3f4c364) ----
+    "C04-15": ("missed", "no member imported its rule. Added family imported_plain (several members import the same csvpath that holds a fail())."),
+    "C04-16": ("missed", "cross-path signals only appeared in a prelude run. Added family fail_all_stop_all (both on one line of a breadth-first run, signalling member first)."),
+    "C05-15": ("caught", ""),
+    "C05-16": ("missed", "stand-alone runs always used CsvPath(config=...). Added a CsvPath handed out by CsvPaths.csvpath() and run directly."),
+    "C07-15": ("missed", "reset_headers() and append() never met. Added the pair through non-contributing when/do components."),
+    "C07-16": ("caught", ""),
+    "C08-15": ("missed", "no member carried print-mode. Added print-mode: no-default."),
+    "C08-16": ("missed", "every member had an identity and a text of its own. Added the same unidentified csvpath twice in a group (members keyed by position)."),
+    "C09-15": ("missed", "two things: the torn write landed mostly in data.csv, and the frozen clock made the change's `return elapsed` falsy. The torn write now targets one kind of member file, and the time shim ticks with the simulated clock when a scenario asks for a ticking clock."),
+    "C09-16": ("missed", "nothing printed to a named printer. Added."),
+    "C10-15": ("caught", ""),
+    "C10-16": ("missed", "the process always lived in UTC. Added histories around the hour in which a daylight-saving zone (TZ) falls back."),
+    "C11-15": ("caught", ""),
+    "C11-16": ("missed", "config.ini always named the inputs directories plainly. Worlds may now write them as ./inputs or .//inputs."),
+    "C12-15": ("caught", ""),
+    "C12-16": ("missed", "identities started with ASCII letters. Added identities starting with a non-ASCII letter."),
+    "C18-15": ("caught", ""),
+    "C18-16": ("caught", ""),
+    "C19-15": ("missed", "no I/O fault while a job READS its file. Added a transient read error inside a job; the jobs after it are compared."),
+    "C19-16": ("missed", "print_line() only appeared without arguments. Added its one- and two-argument forms to the function zoo."),
+    "C20-15": ("missed", "header cells were clean and filters went by position. Added header cells that need cleaning and filters by header name."),
+    "C20-16": ("missed", "a csvpath held at most one reference per datum. Added two keys of one tracked variable, the whole variable, and the same header of two members."),
 }
 
 
